@@ -286,5 +286,354 @@ theorem descendantG_view (p : PtrG T) : viewD view (descendantG Q p) = processDe
   unfold descendantG processDescendant
   exact descendantFuel_view hf _ p (by rw [hf.depth]; omega)
 
+theorem boolOfG_view (d : DataG T) : boolOfG Q d = boolOf (viewD view d) := by
+  cases d <;> simp [boolOfG, boolOf]
+  rename_i v
+  rw [hf.asBool]
+  cases view v <;> simp [asBoolJ]
+
+theorem dboolG_view (b : Bool) : viewD view (dboolG Q b) = dbool b := by simp [dboolG, dbool, hf.ofBool]
+theorem di64G_view (n : Nat) : viewD view (di64G Q n) = di64 n := by simp [di64G, di64, hf.ofI64]
+
+theorem filter_children_view (item : PtrG T → Bool) (item' : Ptr → Bool) (h : ∀ p, item p = item' (viewP view p)) (p : PtrG T) :
+    ((childrenPtrG Q p).filter fun c => item (PtrG.empty c.inner c.loc)).map (viewP view)
+      = (childrenPtr (viewP view p)).filter fun c => item' (Ptr.empty c.inner c.loc) := by
+  rw [← childrenPtrG_view hf p, List.filter_map]
+  congr 1
+  refine List.filter_congr ?_
+  intro c _
+  simp [h, viewP_empty, Function.comp_def]
+
+theorem filterChildrenWithG_view (item : PtrG T → Bool) (item' : Ptr → Bool) (h : ∀ p, item p = item' (viewP view p)) (d : DataG T) :
+    viewD view (filterChildrenWithG Q item d) = filterChildrenWith item' (viewD view d) := by
+  unfold filterChildrenWithG filterChildrenWith
+  refine viewD_flatMap _ _ ?_ d
+  intro p
+  have hc := filter_children_view hf item item' h p
+  cases hv : view p.inner
+  case arr js => obtain ⟨xs, h1, h2⟩ := hf.arr hv; simp [h1, hv, hc]
+  case obj kvs => obtain ⟨xs, h1, h2, h3⟩ := hf.obj hv; simp [h1, h3, hv, hc]
+  all_goals (obtain ⟨x1, x2⟩ := hf.scalar (t := p.inner) (by rw [hv]; rfl) (by rw [hv]; rfl); simp [x1, x2, hv])
+
+theorem filterProcessWithG_view (item : PtrG T → Bool) (item' : Ptr → Bool) (h : ∀ p, item p = item' (viewP view p)) (d : DataG T) :
+    viewD view (filterProcessWithG Q item d) = filterProcessWith item' (viewD view d) := by
+  unfold filterProcessWithG filterProcessWith
+  refine viewD_flatMap _ _ ?_ d
+  intro p
+  have hc := filter_children_view hf item item' h p
+  have hi : p.isInternal = (viewP view p).isInternal := rfl
+  rw [← hi]
+  by_cases hint : p.isInternal = true
+  · simp [hint, dboolG_view hf, h]
+  · simp only [hint, Bool.false_eq_true, if_false]
+    cases hv : view p.inner
+    case arr js => obtain ⟨xs, h1, h2⟩ := hf.arr hv; simp [h1, hv, hc]
+    case obj kvs => obtain ⟨xs, h1, h2, h3⟩ := hf.obj hv; simp [h1, h3, hv, hc]
+    all_goals (obtain ⟨x1, x2⟩ := hf.scalar (t := p.inner) (by rw [hv]; rfl) (by rw [hv]; rfl); simp [x1, x2, hv])
+
+end
+
+-- list forms of the structural equality of `Eval.lean`
+theorem eqJsonL_zip : ∀ (xs ys : List Json), eqJsonL xs ys = (xs.length == ys.length && (List.zipWith eqJson xs ys).all id)
+  | [], [] => by simp [eqJsonL]
+  | [], _ :: _ => by simp [eqJsonL]
+  | _ :: _, [] => by simp [eqJsonL]
+  | x :: xs, y :: ys => by simp [eqJsonL, eqJsonL_zip xs ys, Bool.and_comm, Bool.and_assoc, Bool.and_left_comm]
+theorem eqJsonFind_any (k : Str) (x : Json) : ∀ (ys : List (Str × Json)), eqJsonFind k x ys = ys.any fun ky => k == ky.1 && eqJson x ky.2
+  | [] => by simp [eqJsonFind]
+  | (k', y) :: ys => by simp [eqJsonFind, eqJsonFind_any k x ys]
+theorem eqJsonSub_all : ∀ (xs ys : List (Str × Json)), eqJsonSub xs ys = xs.all fun kx => ys.any fun ky => kx.1 == ky.1 && eqJson kx.2 ky.2
+  | [], _ => by simp [eqJsonSub]
+  | (k, x) :: xs, ys => by simp [eqJsonSub, eqJsonFind_any, eqJsonSub_all xs ys]
+theorem eqArrays_zip : ∀ (xs ys : List Json), eqArrays xs ys = (xs.length == ys.length && (List.zipWith eqJson xs ys).all id)
+  | [], [] => by simp [eqArrays]
+  | [], _ :: _ => by simp [eqArrays]
+  | _ :: _, [] => by simp [eqArrays]
+  | x :: xs, y :: ys => by simp [eqArrays, eqArrays_zip xs ys, Bool.and_comm, Bool.and_assoc, Bool.and_left_comm]
+
+theorem all_congr' {α} (f g : α → Bool) : ∀ (l : List α), (∀ a ∈ l, f a = g a) → l.all f = l.all g
+  | [], _ => rfl
+  | a :: l, h => by
+    simp only [List.all_cons, h a (by simp)]
+    rw [all_congr' f g l (fun b hb => h b (List.mem_cons_of_mem _ hb))]
+theorem any_congr' {α} (f g : α → Bool) : ∀ (l : List α), (∀ a ∈ l, f a = g a) → l.any f = l.any g
+  | [], _ => rfl
+  | a :: l, h => by
+    simp only [List.any_cons, h a (by simp)]
+    rw [any_congr' f g l (fun b hb => h b (List.mem_cons_of_mem _ hb))]
+
+theorem zipWith_congr' {α β γ} (f g : α → β → γ) : ∀ (xs : List α) (ys : List β), (∀ x ∈ xs, ∀ y, f x y = g x y) →
+    List.zipWith f xs ys = List.zipWith g xs ys
+  | [], _, _ => by simp
+  | _ :: _, [], _ => by simp
+  | x :: xs, y :: ys, h => by
+    simp only [List.zipWith_cons_cons, h x (by simp) y]
+    rw [zipWith_congr' f g xs ys (fun a ha b => h a (List.mem_cons_of_mem _ ha) b)]
+
+section
+variable (hf : Faithful Q view)
+include hf
+
+theorem eqJsonFuel_view : ∀ (fuel : Nat) (a b : T), (view a).depth < fuel →
+    eqJsonFuel Q fuel a b = eqJson (view a) (view b)
+  | 0, _, _, h => by omega
+  | fuel+1, a, b, hfuel => by
+    unfold eqJsonFuel
+    rw [hf.num a, hf.num b]
+    cases ha : view a <;> cases hb : view b <;> simp only [numOf, eqJson]
+    case arr.arr xs ys =>
+      obtain ⟨xs', h1, h2⟩ := hf.arr ha
+      obtain ⟨ys', h3, h4⟩ := hf.arr hb
+      subst h2; subst h4
+      simp only [h1, h3, eqJsonL_zip, List.length_map, List.zipWith_map]
+      congr 2
+      refine zipWith_congr' _ _ _ _ ?_
+      intro x hx y
+      have hd : (view x).depth < fuel := by
+        have := depthL_mem _ _ (List.mem_map_of_mem (f := view) hx)
+        rw [ha] at hfuel; simp only [Json.depth] at hfuel; omega
+      exact eqJsonFuel_view fuel x y hd
+    case obj.obj xs ys =>
+      obtain ⟨xs', h1, h2, h1a⟩ := hf.obj ha
+      obtain ⟨ys', h3, h4, h3a⟩ := hf.obj hb
+      subst h2; subst h4
+      simp only [h1, h3, h1a, h3a, eqJsonSub_all, List.length_map, List.all_map, List.any_map, Function.comp_def]
+      congr 1
+      refine all_congr' _ _ _ ?_
+      intro kx hkx
+      have hd : (view kx.2).depth < fuel := by
+        have := depthM_mem _ _ _ (List.mem_map_of_mem (f := fun kv => (kv.1, view kv.2)) hkx)
+        rw [ha] at hfuel; simp only [Json.depth] at hfuel; omega
+      refine any_congr' _ _ _ ?_
+      intro ky _
+      rw [eqJsonFuel_view fuel kx.2 ky.2 hd]
+    all_goals first
+      | (have a1 := hf.not_arr (t := a) (by rw [ha]; rfl); simp only [a1]
+         first
+           | (have a2 := hf.not_obj (t := a) (by rw [ha]; rfl); simp [a2, hf.beq, ha, hb, Json.beq])
+           | (have b2 := hf.not_obj (t := b) (by rw [hb]; rfl); simp [b2, hf.beq, ha, hb, Json.beq]))
+      | (have b1 := hf.not_arr (t := b) (by rw [hb]; rfl); simp only [b1]
+         first
+           | (have a2 := hf.not_obj (t := a) (by rw [ha]; rfl); simp [a2, hf.beq, ha, hb, Json.beq])
+           | (have b2 := hf.not_obj (t := b) (by rw [hb]; rfl); simp [b2, hf.beq, ha, hb, Json.beq]))
+
+theorem eqJsonG_view (a b : T) : eqJsonG Q a b = eqJson (view a) (view b) := by
+  unfold eqJsonG
+  exact eqJsonFuel_view hf _ a b (by rw [hf.depth]; omega)
+
+theorem ltJsonG_view (a b : T) : ltJsonG Q a b = ltJson (view a) (view b) := by
+  unfold ltJsonG ltJson
+  rw [hf.num a, hf.num b, hf.asStr a, hf.asStr b]
+  cases view a <;> cases view b <;> simp [numOf, asStrJ]
+
+theorem ptrsEqG_view : ∀ (l r : List (PtrG T)), ptrsEqG Q l r = ptrsEq (l.map (viewP view)) (r.map (viewP view))
+  | [], [] => rfl
+  | [], _ :: _ => rfl
+  | _ :: _, [] => rfl
+  | a :: l, b :: r => by simp [ptrsEqG, ptrsEq, ptrEq, hf.beq, ptrsEqG_view l r]
+
+theorem eqDataG_view (l r : DataG T) : eqDataG Q l r = eqData (viewD view l) (viewD view r) := by
+  cases l <;> cases r <;> simp [eqDataG, eqData, eqJsonG_view hf, ptrsEqG_view hf]
+  rename_i p ps
+  cases hv : view p.inner
+  case arr js =>
+    obtain ⟨xs, h1, h2⟩ := hf.arr hv
+    subst h2
+    simp only [h1, eqArrays_zip, List.length_map, List.zipWith_map_right, List.zipWith_map_left]
+    congr 2
+    refine zipWith_congr' _ _ _ _ ?_
+    intro x _ y
+    simp [eqJsonG_view hf]
+  case obj kvs => obtain ⟨xs, h1, h2, h3⟩ := hf.obj hv; simp [h3]
+  all_goals (obtain ⟨x1, x2⟩ := hf.scalar (t := p.inner) (by rw [hv]; rfl) (by rw [hv]; rfl); simp [x1])
+
+theorem ltDataG_view (l r : DataG T) : ltDataG Q l r = ltData (viewD view l) (viewD view r) := by
+  cases l <;> cases r <;> simp [ltDataG, ltData, ltJsonG_view hf]
+
+theorem cmpDataG_view (op : CmpOp) (l r : DataG T) : cmpDataG Q op l r = cmpData op (viewD view l) (viewD view r) := by
+  cases op <;> simp [cmpDataG, cmpData, eqDataG_view hf, ltDataG_view hf]
+
+theorem literalValueG_view (l : Literal) : view (literalValueG Q l) = literalValue l := by
+  cases l <;> simp [literalValueG, literalValue, hf.ofI64, hf.ofF64, hf.ofStr, hf.ofBool, hf.null]
+
+theorem processSQSegG_view (d : DataG T) (s : SQSeg) : viewD view (processSQSegG Q d s) = processSQSeg (viewD view d) s := by
+  cases s with
+  | index i => exact viewD_flatMap _ _ (processIndexG_view hf i) d
+  | name k => exact viewD_flatMap _ _ (processKeyG_view hf k) d
+
+theorem foldl_SQ_view : ∀ (segs : List SQSeg) (d : DataG T),
+    viewD view (segs.foldl (processSQSegG Q) d) = segs.foldl processSQSeg (viewD view d)
+  | [], _ => rfl
+  | s :: segs, d => by simp only [List.foldl_cons, foldl_SQ_view segs, processSQSegG_view hf]
+
+theorem lengthItemG_view (j : T) : viewD view (lengthItemG Q j) =
+    (match view j with | .str s => di64 s.length | .arr xs => di64 xs.length | .obj kvs => di64 kvs.length | _ => .nothing) := by
+  unfold lengthItemG
+  rw [hf.asStr]
+  cases hv : view j
+  case str s => simp [asStrJ, di64G_view hf]
+  case arr js => obtain ⟨xs, h1, h2⟩ := hf.arr hv; subst h2; simp [asStrJ, h1, di64G_view hf]
+  case obj kvs => obtain ⟨xs, h1, h2, h3⟩ := hf.obj hv; subst h2; simp [asStrJ, h1, h3, di64G_view hf]
+  all_goals (obtain ⟨x1, x2⟩ := hf.scalar (t := j) (by rw [hv]; rfl) (by rw [hv]; rfl); simp [asStrJ, x1, x2])
+
+theorem lengthFnG_view (d : DataG T) : viewD view (lengthFnG Q d) = lengthFn (viewD view d) := by
+  cases d with
+  | ref p => simp only [lengthFnG, lengthFn, viewD_ref, viewP_inner, lengthItemG_view hf]; cases view p.inner <;> rfl
+  | refs ps => simp [lengthFnG, lengthFn, di64G_view hf]
+  | value v => simp only [lengthFnG, lengthFn, viewD_value, lengthItemG_view hf]; cases view v <;> rfl
+  | nothing => rfl
+
+theorem countFnG_view (d : DataG T) : viewD view (countFnG Q d) = countFn (viewD view d) := by
+  cases d <;> simp [countFnG, countFn, di64G_view hf]
+
+theorem valueFnG_view (d : DataG T) : viewD view (valueFnG d) = valueFn (viewD view d) := by
+  cases d with
+  | refs ps => match ps with
+    | [] => rfl
+    | [p] => rfl
+    | _ :: _ :: _ => rfl
+  | _ => rfl
+
+theorem argValuesG_view (d : DataG T) : (argValuesG d).map view = argValues (viewD view d) := by
+  cases d <;> simp [argValuesG, argValues, Function.comp_def]
+
+theorem toStrDG_view (d : DataG T) : toStrDG Q d = toStrD (viewD view d) := by
+  cases d with
+  | value v => simp only [toStrDG, toStrD, viewD_value, hf.asStr]; cases view v <;> rfl
+  | ref p => simp only [toStrDG, toStrD, viewD_ref, viewP_inner, hf.asStr]; cases view p.inner <;> rfl
+  | refs ps => rfl
+  | nothing => rfl
+
+theorem presentOfG_view (d : DataG T) : presentOfG d = presentOf (viewD view d) := by
+  cases d <;> simp [presentOfG, presentOf]
+
+omit hf in
+theorem rootDataG_view (root : T) : viewD view (rootDataG root) = rootData (view root) := rfl
+
+variable (E : Engine) (root : T)
+
+mutual
+theorem Segment.processG_view : ∀ (s : Segment) (d : DataG T),
+    viewD view (s.processG Q E root d) = s.process E (view root) (viewD view d)
+  | .descendant s, d => by
+      simp only [Segment.processG, Segment.process]
+      rw [Segment.processG_view s, viewD_flatMap _ _ (descendantG_view hf) d]
+  | .selector s, d => by simp only [Segment.processG, Segment.process, Selector.processG_view s d]
+  | .selectors ss, d => by simp only [Segment.processG, Segment.process, Selector.processAllG_view ss d]
+theorem Selector.processAllG_view : ∀ (ss : List Selector) (d : DataG T),
+    viewD view (Selector.processAllG Q E root ss d) = Selector.processAll E (view root) ss (viewD view d)
+  | [], _ => rfl
+  | [s], d => by simp only [Selector.processAllG, Selector.processAll, Selector.processG_view s d]
+  | s :: s' :: ss, d => by
+      simp only [Selector.processAllG, Selector.processAll, viewD_reduce, Selector.processG_view s d,
+        Selector.processAllG_view (s' :: ss) d]
+theorem Selector.processG_view : ∀ (s : Selector) (d : DataG T),
+    viewD view (s.processG Q E root d) = s.process E (view root) (viewD view d)
+  | .name k, d => viewD_flatMap _ _ (processKeyG_view hf k) d
+  | .index i, d => viewD_flatMap _ _ (processIndexG_view hf i) d
+  | .wildcard, d => viewD_flatMap _ _ (processWildcardG_view hf) d
+  | .slice a b c, d => viewD_flatMap _ _ (processSliceG_view hf a b c) d
+  | .filter f, d => by
+      simp only [Selector.processG, Selector.process]
+      refine filterChildrenWithG_view hf _ _ ?_ d
+      intro p
+      rw [boolOfG_view hf, Filter.elemG_view f (.ref p)]; rfl
+theorem Segment.processListG_view : ∀ (ss : List Segment) (d : DataG T),
+    viewD view (Segment.processListG Q E root ss d) = Segment.processList E (view root) ss (viewD view d)
+  | [], _ => rfl
+  | s :: ss, d => by
+      simp only [Segment.processListG, Segment.processList]
+      rw [Segment.processListG_view ss, Segment.processG_view s d]
+theorem Filter.elemG_view : ∀ (f : Filter) (d : DataG T),
+    viewD view (f.elemG Q E root d) = f.elem E (view root) (viewD view d)
+  | .or fs, d => by simp only [Filter.elemG, Filter.elem, dboolG_view hf, Filter.anyG_view fs d]
+  | .and fs, d => by simp only [Filter.elemG, Filter.elem, dboolG_view hf, Filter.allG_view fs d]
+  | .atom a, d => by simp only [Filter.elemG, Filter.elem, FilterAtom.processG_view a d]
+theorem Filter.anyG_view : ∀ (fs : List Filter) (d : DataG T),
+    Filter.anyG Q E root fs d = Filter.any E (view root) fs (viewD view d)
+  | [], _ => rfl
+  | f :: fs, d => by
+      simp only [Filter.anyG, Filter.any]
+      rw [Filter.anyG_view fs d, boolOfG_view hf,
+        filterProcessWithG_view hf _ (fun p => boolOf (f.elem E (view root) (.ref p))) (fun p => by
+          rw [boolOfG_view hf, Filter.elemG_view f (.ref p)]; rfl) d]
+theorem Filter.allG_view : ∀ (fs : List Filter) (d : DataG T),
+    Filter.allG Q E root fs d = Filter.all E (view root) fs (viewD view d)
+  | [], _ => rfl
+  | f :: fs, d => by
+      simp only [Filter.allG, Filter.all]
+      rw [Filter.allG_view fs d, boolOfG_view hf,
+        filterProcessWithG_view hf _ (fun p => boolOf (f.elem E (view root) (.ref p))) (fun p => by
+          rw [boolOfG_view hf, Filter.elemG_view f (.ref p)]; rfl) d]
+theorem FilterAtom.processG_view : ∀ (a : FilterAtom) (d : DataG T),
+    viewD view (a.processG Q E root d) = a.process E (view root) (viewD view d)
+  | .filter e n, d => by
+      have h := filterProcessWithG_view hf (fun p => boolOfG Q (e.elemG Q E root (.ref p)))
+        (fun p => boolOf (e.elem E (view root) (.ref p))) (fun p => by
+          rw [boolOfG_view hf, Filter.elemG_view e (.ref p)]; rfl) d
+      simp only [FilterAtom.processG, FilterAtom.process]
+      cases n
+      · simpa using h
+      · simp only [cond_true]
+        rw [dboolG_view hf, boolOfG_view hf, h]
+  | .test e n, d => by
+      have h := Test.processG_view e d
+      simp only [FilterAtom.processG, FilterAtom.process]
+      cases e.isResBool <;> cases n <;>
+        simp only [cond_true, cond_false, dboolG_view hf, boolOfG_view hf, presentOfG_view hf, h]
+      all_goals (cases presentOf (Test.process E (view root) e (viewD view d)) <;> simp [dboolG_view hf])
+  | .cmp op l r, d => by
+      simp only [FilterAtom.processG, FilterAtom.process, dboolG_view hf, cmpDataG_view hf,
+        Comparable.processG_view l d, Comparable.processG_view r d]
+theorem Comparable.processG_view : ∀ (c : Comparable) (d : DataG T),
+    viewD view (c.processG Q E root d) = c.process E (view root) (viewD view d)
+  | .lit l, _ => by simp only [Comparable.processG, Comparable.process, viewD_value, literalValueG_view hf]
+  | .fn f, d => by simp only [Comparable.processG, Comparable.process, TestFunction.processG_view f d]
+  | .sq isRoot segs, d => by
+      simp only [Comparable.processG, Comparable.process, foldl_SQ_view hf]
+      cases isRoot <;> simp [rootDataG_view root]
+theorem Test.processG_view : ∀ (t : Test) (d : DataG T),
+    viewD view (t.processG Q E root d) = t.process E (view root) (viewD view d)
+  | .rel segs, d => by simp only [Test.processG, Test.process, Segment.processListG_view segs d]
+  | .abs segs, _ => by simp only [Test.processG, Test.process, Segment.processListG_view segs _, rootDataG_view root]
+  | .fn f, d => by simp only [Test.processG, Test.process, TestFunction.processG_view f d]
+theorem TestFunction.processG_view : ∀ (f : TestFunction) (d : DataG T),
+    viewD view (f.processG Q E root d) = f.process E (view root) (viewD view d)
+  | .length a, d => by simp only [TestFunction.processG, TestFunction.process, lengthFnG_view hf, FnArg.processG_view a d]
+  | .count a, d => by simp only [TestFunction.processG, TestFunction.process, countFnG_view hf, FnArg.processG_view a d]
+  | .value a, d => by simp only [TestFunction.processG, TestFunction.process, valueFnG_view hf, FnArg.processG_view a d]
+  | .match a b, d => by
+      simp only [TestFunction.processG, TestFunction.process, toStrDG_view hf, FnArg.processG_view a d, FnArg.processG_view b d]
+      split <;> simp_all [dboolG_view hf]
+  | .search a b, d => by
+      simp only [TestFunction.processG, TestFunction.process, toStrDG_view hf, FnArg.processG_view a d, FnArg.processG_view b d]
+      split <;> simp_all [dboolG_view hf]
+  | .custom name args, d => by
+      simp only [TestFunction.processG, TestFunction.process, viewD_value, hf.ext, FnArg.valuesG_view args d]
+theorem FnArg.valuesG_view : ∀ (args : List FnArg) (d : DataG T),
+    (FnArg.valuesG Q E root args d).map view = FnArg.values E (view root) args (viewD view d)
+  | [], _ => rfl
+  | a :: as, d => by
+      simp only [FnArg.valuesG, FnArg.values, List.map_append, argValuesG_view hf, FnArg.processG_view a d, FnArg.valuesG_view as d]
+theorem FnArg.processG_view : ∀ (a : FnArg) (d : DataG T),
+    viewD view (a.processG Q E root d) = a.process E (view root) (viewD view d)
+  | .lit l, _ => by simp only [FnArg.processG, FnArg.process, viewD_value, literalValueG_view hf]
+  | .test t, d => by simp only [FnArg.processG, FnArg.process, Test.processG_view t d]
+  | .filter f, d => by
+      simp only [FnArg.processG, FnArg.process]
+      exact filterProcessWithG_view hf _ _ (fun p => by rw [boolOfG_view hf, Filter.elemG_view f (.ref p)]; rfl) d
+end
+
+/-- the whole evaluator commutes with any faithful view -/
+theorem jsPathProcessG_view (segs : List Segment) :
+    (match jsPathProcessG Q E root segs with
+      | .ok ps => Except.ok (ps.map (viewP view))
+      | .error e => .error e) = jsPathProcess E segs (view root) := by
+  unfold jsPathProcessG jsPathProcess
+  have h := Segment.processListG_view hf E root segs (rootDataG root)
+  rw [rootDataG_view root] at h
+  rw [← h]
+  cases Segment.processListG Q E root segs (rootDataG root) <;> simp [viewD]
+
 end
 end JP
